@@ -95,6 +95,7 @@ pub fn dir_case(rng: &mut Rng, cfg: &str, o: &DirOpts, out: &mut Vec<String>) {
     let mut nver: Vec<u64> = vec![0; pool.len()];
     let mut epoch = 0usize;
     let mut published: Vec<usize> = vec![];
+    let mut scripted_done = false;
     out.push("spec.root".into());
     for step in 0..o.epochs {
         // batch
@@ -120,10 +121,28 @@ pub fn dir_case(rng: &mut Rng, cfg: &str, o: &DirOpts, out: &mut Vec<String>) {
             batch.push((i, v));
         }
         // malformed stream: a repeated label now and then
-        let dup = rng.chance(1, 12) && !batch.is_empty();
+        // (all shapes: two new values, the current value together with a new one in either order, the
+        // current value twice next to other labels that change, the same new value twice; at any position)
+        let dup = rng.chance(1, 7) && !batch.is_empty();
         if dup {
-            let (i, _) = batch[0].clone();
-            batch.push((i, value(rng)));
+            // prefer a label that already has a value
+            let with_value: Vec<usize> = (0..batch.len()).filter(|j| current[batch[*j].0].is_some()).collect();
+            let j = if !with_value.is_empty() && rng.chance(2, 3) { with_value[rng.below(with_value.len() as u64) as usize] } else { rng.below(batch.len() as u64) as usize };
+            let i = batch[j].0;
+            let cur = current[i].clone();
+            let (first, second) = match (rng.below(5), cur) {
+                (0, Some(c)) => (c, value(rng)),
+                (1, Some(c)) => (value(rng), c),
+                (2, Some(c)) => (c.clone(), c),
+                (3, _) => {
+                    let v = value(rng);
+                    (v.clone(), v)
+                }
+                _ => (value(rng), value(rng)),
+            };
+            batch[j].1 = first;
+            let at = rng.below(batch.len() as u64 + 1) as usize;
+            batch.insert(at, (i, second));
         }
         let line = batch
             .iter()
@@ -146,6 +165,30 @@ pub fn dir_case(rng: &mut Rng, cfg: &str, o: &DirOpts, out: &mut Vec<String>) {
         }
         out.push("dir.epochhash".into());
         out.push("spec.root".into());
+        if !scripted_done && !published.is_empty() {
+            scripted_done = true;
+            // every shape of a repeated label, once per case, next to a label that really changes: all must be
+            // rejected without effect (these extra calls are not counted as epochs)
+            let i = published[0];
+            let other = (0..pool.len()).find(|k| *k != i).unwrap_or(i);
+            let cur = current[i].clone().unwrap();
+            let hu = hex_or_dash(&pool[i]);
+            let ho = hex_or_dash(&pool[other]);
+            let (n1, n2, n3) = (value(rng), value(rng), value(rng));
+            let shapes: Vec<String> = vec![
+                format!("{hu} {} {ho} {} {hu} {}", hex_or_dash(&cur), hex_or_dash(&n3), hex_or_dash(&n1)),
+                format!("{hu} {} {ho} {} {hu} {}", hex_or_dash(&n1), hex_or_dash(&n3), hex_or_dash(&cur)),
+                format!("{hu} {} {ho} {} {hu} {}", hex_or_dash(&cur), hex_or_dash(&n3), hex_or_dash(&cur)),
+                format!("{hu} {} {hu} {} {ho} {}", hex_or_dash(&n1), hex_or_dash(&n1), hex_or_dash(&n3)),
+                format!("{ho} {} {hu} {} {hu} {}", hex_or_dash(&n3), hex_or_dash(&n1), hex_or_dash(&n2)),
+                format!("{hu} {} {hu} {}", hex_or_dash(&cur), hex_or_dash(&n1)),
+            ];
+            for sh in shapes {
+                out.push(format!("dir.publish {sh}"));
+                out.push("dir.epochhash".into());
+                out.push("spec.root".into());
+            }
+        }
         if o.dumps && (o.epochs <= 8 || step % 3 == 0) {
             out.push("dir.dump".into());
         }
